@@ -11,7 +11,9 @@ def observations(run):
     per = collections.defaultdict(list)
     for l in run.log:
         if l[0] == 'BEGIN':
-            per[l[1]].append((list(l[2]), json.dumps(l[4], sort_keys=True)))
+            # (mirror entities m1, m2, ... exist only in the in-process runs: they are checked against entity e inside each
+            #  run, kind 'mirror'; the comparison across runs and transports is about entity e)
+            per[l[1]].append((list(l[2]), json.dumps({eid: v for eid, v in l[4].items() if not str(eid).startswith('m')}, sort_keys=True)))
     return dict(per)
 
 
